@@ -355,6 +355,33 @@ func (g *pwGen) generate() {
 			bad := g.unauthorisedPush(ref, i)
 			badOp := g.b.ops[bad-1]
 			g.b.add(world.Op{Kind: "annotate", Actor: r.Range(0, g.cfg.nDev), Targets: []int{bad}, Skip: true, Msg: "revoke", EntryKey: -2})
+			removed := -1
+			if g.cfg.policyEdits && r.Chance(0.5) {
+				// a policy change lands between the violation and its fix: the
+				// rule for this ref is handed to a single developer, everybody
+				// else who was trusted for it is de-authorised
+				if vs := model.Walk(g.pol, "git:"+ref); len(vs) > 0 && len(vs[0].Principals) >= 2 && ref == mainRef {
+					np := g.pol.Clone()
+					np.Files["targets"].Version++
+					rule := &np.Files["targets"].Rules[0]
+					keep := vs[0].Principals[r.Intn(len(vs[0].Principals))]
+					for _, p := range vs[0].Principals {
+						if p.ID != keep.ID {
+							removed = p.Keys[0]
+						}
+					}
+					rule.Principals = []string{keep.ID}
+					rule.Threshold = 1
+					if del, ok := np.Files["protect-main"]; ok {
+						del.Signers = []int{keep.Keys[0]}
+					}
+					g.pol = np
+				} else {
+					g.pol = g.editPolicy()
+				}
+				g.b.add(world.Op{Kind: "stage", Actor: 0, Policy: g.pol})
+				g.b.add(world.Op{Kind: "apply", Actor: 0})
+			}
 			fixer, fixKey := badOp.Actor, badOp.EntryKey
 			if r.Chance(0.5) {
 				if m := g.membersOf(ref); len(m) > 0 {
@@ -368,6 +395,12 @@ func (g *pwGen) generate() {
 			id := g.b.add(world.Op{Kind: "fix", Actor: fixer, Ref: ref, TreeOf: good, CommitKey: ck, EntryKey: fixKey})
 			g.pushes = append(g.pushes, id)
 			g.lastOp[ref] = id
+			if removed > 0 && removed <= g.cfg.nDev && r.Chance(0.7) {
+				// the developer de-authorised in between pushes after the fix
+				id := g.b.add(world.Op{Kind: "push", Actor: removed, Ref: ref, Files: fileFor(r, i+100), CommitKey: removed, EntryKey: -2})
+				g.pushes = append(g.pushes, id)
+				g.lastOp[ref] = id
+			}
 		case 5:
 			if g.cfg.verifyMid {
 				g.b.add(world.Op{Kind: "verify", Actor: r.Range(0, g.cfg.nDev), Ref: ref, Mode: []string{"full", "latest"}[r.Intn(2)]})
